@@ -57,10 +57,13 @@ class Ctx:
                 f, info = factsmod.extract(config)
             except factsmod.Inconclusive as e:
                 raise Inconclusive(str(e))
-            from . import inline, fieldnames
+            from . import inline, fieldnames, fnnames
             ren = fieldnames.canonicalise(f)
             if ren:
                 info = dict(info, field_renames=ren)
+            fren = fnnames.canonicalise(f)
+            if fren:
+                info = dict(info, fn_renames=fren)
             inl = inline.inline_helpers(f)
             if inl:
                 info = dict(info, inlined_helpers=inl)
